@@ -281,7 +281,10 @@ class Check:
                 return 'known'
         self._per_key = getattr(self, '_per_key', {})
         self._per_key[key] = self._per_key.get(key, 0) + 1
-        if self._per_key[key] > 3 or len([v for v in self.violations if v is not None]) >= 12:
+        # at most 3 reports per key; at most 12 reports with a failing input and 12 without (every key and its count is
+        # listed in the evidence whatever the caps)
+        shown = [v for v in self.violations if v is not None]
+        if self._per_key[key] > 3 or len([v for v in shown if bool(v[1]) == bool(no_input)]) >= 12:
             self.violations.append(None)
             return 'violation'
         os.makedirs(os.path.join(VERIF, 'replays'), exist_ok=True)
@@ -326,6 +329,8 @@ class Check:
             cov.update(extra)
         real = [v for v in self.violations if v is not None]
         cov['known_findings_hit'] = self.known_hits
+        if getattr(self, '_per_key', None):
+            cov['violation_keys'] = dict(self._per_key)
         ev = {'property_id': self.prop, 'tier': self.tier if self.tier in ('quick', 'thorough') else 'quick',
               'seed': self.seed, 'level': self.level, 'coverage': cov, 'assumptions': self.assumptions,
               'wall_s': round(time.time() - self.t0, 2), 'violations': len(self.violations)}
